@@ -152,6 +152,18 @@ def run(ctx):
         why = spec_on_impl(o)
         if why:
             report(ctx, o, why)
+    if not quick and os.path.exists(os.path.join(verif.ROOT, "harness", "bin", "c04")):
+        # exhaustive over every n <= 2048 under 8 seeds, and one complete walk of a 2^24 range (bitmap check)
+        ok, _ = ctx.harness_run("c04", ["-out", "sweep.jsonl", "-sweep", "2048,8"], timeout=1200)
+        extra = ctx.read_jsonl(os.path.join(ctx.work, "sweep.jsonl")) if ok else []
+        ok, _ = ctx.harness_run("c04", ["-out", "big.jsonl", "-walk", "%d,%d,%d" % (1 << 24, ctx.seed + 3, (1 << 24) + 2)], timeout=1200)
+        extra += ctx.read_jsonl(os.path.join(ctx.work, "big.jsonl")) if ok else []
+        for o in extra:
+            ctx.count(o["class"], (o["n"], o["seed"]), nontrivial=o["n"] >= 2)
+            why = spec_on_impl(o)
+            if why:
+                report(ctx, o, why)
+        ctx.info.append("exhaustive sweep n=1..2048 x 8 seeds and one full 2^24 walk: %d complete walks judged by the property" % len(extra))
     info100 = 0
     if model_ok and rows:
         nshards = 16 if quick else 64
